@@ -124,6 +124,21 @@ def refused_user_sessions():
     return out
 
 
+def overtaken_by_user():
+    """A path command is suspended in its j-th backend call when USER arrives and is answered at once (any backend that really
+    awaits makes room for this).  The command was read under the old login: it may finish there or be refused, but what it does must
+    not be decided - and done - in the tree of the account USER named.  (The shipped server does exactly that: known finding
+    user-overtakes-command.)"""
+    out = []
+    for pre in ([["send", 1, "USER u2"]], [["send", 1, "USER anonymous"]], [["send", 1, "USER u1"], ["send", 1, "PASS pw1"]]):
+        for cmd in ("MKD n", "DELE f", "RMD d", "CWD d", "RNFR f", "MKD /d/n", "DELE /d/g"):
+            for y in ("u1", "u2", "nobody", "anonymous"):
+                for j in (1, 2):
+                    out.append([["connect", 1]] + pre + [["gate", 1, None, j], ["send", 1, cmd], ["send", 1, "USER " + y], ["release", 1], ["send", 1, "PWD"],
+                               ["send", 1, "MLST n"], ["send", 1, "PASS pw1"], ["send", 1, "MLST n"], ["send", 1, "MLST /h/n"], ["send", 1, "MLST f"]])
+    return out
+
+
 def twin_sessions():
     """Two control sessions, one of them not (or not yet, or no longer) logged in, sending the same command in the same instant -
     in both orders, and one to three event-loop iterations apart."""
@@ -168,6 +183,9 @@ def run(tier, seed):
                            label="slow-user:" + tag)
     corecheck.validate(chk, gen.std_cfg(ns=1, users=SLOW_USERS, slow_user={"*": 2}, slow_auth=3), gen.STD_TREE, sl + su[::3], label="slow-both")
     corecheck.validate(chk, gen.std_cfg(ns=2, users=LIMITED_USERS), gen.STD_TREE, refused_user_sessions(), label="refused-user")
+    ou = overtaken_by_user()
+    for b in ("memory", "async"):
+        corecheck.validate(chk, gen.std_cfg(ns=1, backend=b), gen.STD_TREE, ou if tier != "quick" else ou[::2], label="overtaken-by-user:" + b)
     tw = twin_sessions()
     corecheck.validate(chk, gen.std_cfg(ns=2, users=[u for u in gen.STD_USERS if u["id"] != "anon"]), gen.STD_TREE, tw if tier != "quick" else tw[::2], label="twins")
     chk.cov["rule"] = ("all command histories of length <= 2 and seeded ones of length 3..6 over %d command kinds (every login "
